@@ -50,12 +50,111 @@ def discover(j):
         ftys = [nt.get(f['ty'], f['ty']) for f in fs]
         if len(fs) >= 2 and all(t in PRIMS for t in ftys) and any(f['ty'] in nt for f in fs):
             tup[a['name']] = '(%s)' % ', '.join(ftys)
+        elif len(fs) == 2 and ftys[0] == ftys[1] and ftys[0] in ('i32', 'i64'):
+            # `struct Bp { left: i32, right: i32 }`: a pair of signed integers under a name (binding powers); positions
+            # (`usize`) keep their struct — `Span` is a role of its own
+            tup[a['name']] = '(%s)' % ', '.join(ftys)
     return nt, tup
 
 
+def inline_literal_consts(j):
+    """`const CLOSE_BRACKET: &str = "]"`, `const COMMA: char = ','`, `precedence::ADDITIVE = 110`: an operand that names a
+    constant item whose own body is one assignment of a literal is that literal.  (Operands of unevaluated constants
+    with any other body — arrays, struct values, arithmetic — are left alone.)"""
+    cb = {b['id']: b for b in j['bodies']}
+    memo = {}
+
+    def lit(uid, depth=0):
+        if uid in memo:
+            return memo[uid]
+        memo[uid] = None
+        b = cb.get(uid)
+        if b is None or depth > 3 or len(b['blocks']) != 1 or b['blocks'][0]['term']['k'] != 'return':
+            return None
+        asg = [st for st in b['blocks'][0]['stmts'] if st['k'] == 'assign']
+        if len(asg) != 1 or asg[0]['pl']['l'] != 0 or asg[0]['pl']['p'] or asg[0]['rv']['k'] != 'use':
+            return None
+        op = asg[0]['rv']['op']
+        if op.get('k') != 'const' or 'static' in op or 'fn' in op:
+            return None
+        if op.get('uneval_uid') and 'promoted' not in op:
+            v = lit(op['uneval_uid'], depth + 1)
+        elif 'uneval_uid' in op or 'promoted' in op:
+            v = None
+        elif 'int' in op or (isinstance(op.get('s'), str) and op['s'].startswith('"') and op.get('ty') in ('&str', "&'static str")):
+            v = op
+        else:
+            v = None
+        memo[uid] = v
+        return v
+
+    def fix(op):
+        if isinstance(op, dict) and op.get('k') == 'const' and op.get('uneval_uid') and 'promoted' not in op and 'static' not in op:
+            v = lit(op['uneval_uid'])
+            if v is not None:
+                n = dict(v)
+                n['named'] = op.get('s')
+                return n
+        return op
+    n = 0
+    for b in list(j['bodies']) + list(j.get('promoted', [])):
+        for blk in b['blocks']:
+            for st in blk['stmts']:
+                if st['k'] != 'assign':
+                    continue
+                rv = st['rv']
+                if rv['k'] in ('use', 'cast', 'repeat'):
+                    rv['op'] = fix(rv['op'])
+                elif rv['k'] == 'binop':
+                    rv['a'], rv['b'] = fix(rv['a']), fix(rv['b'])
+                elif rv['k'] == 'unop':
+                    rv['a'] = fix(rv['a'])
+                elif rv['k'] == 'agg':
+                    rv['ops'] = [fix(o) for o in rv['ops']]
+            t = blk['term']
+            if t['k'] == 'call':
+                t['args'] = [fix(a) for a in t['args']]
+            elif t['k'] == 'switch':
+                t['discr'] = fix(t['discr'])
+    return j
+
+
+def devirtualise_single_impl(j):
+    """`fn accept<V: Visitor>(&self, v: &mut V)` with `v.binary(..)` inside: a call of a method of a crate-local trait on a
+    generic type, where the trait cannot be named from outside the crate and has exactly one impl — the generic type can
+    only be that impl's type, so the call is a direct call of that impl's method (closed world, one candidate)."""
+    by_trait = {}
+    for im in j.get('impls', []):
+        if im.get('trait') and im.get('trait_local'):
+            by_trait.setdefault(im['trait'], []).append(im)
+    single = {t for t, ims in by_trait.items() if len(ims) == 1 and not ims[0].get('trait_reachable', True)}
+    if not single:
+        return j
+    meth = {}
+    for b in j['bodies']:
+        t = (b.get('impl_trait') or '').split('<')[0]
+        if t in single and not b.get('closure'):
+            meth[(t, b['name'].rsplit('::', 1)[-1])] = b
+    for b in j['bodies']:
+        for blk in b['blocks']:
+            t = blk['term']
+            if t['k'] != 'call' or not isinstance(t.get('func'), dict) or not t['func'].get('fn'):
+                continue
+            fn = t['func']['fn']
+            if (fn.get('resolved') or {}).get('kind') not in ('unresolved', 'error', None) or not fn.get('local'):
+                continue
+            tr = (fn.get('trait') or '').split('<')[0]
+            m = meth.get((tr, (fn.get('def') or '').rsplit('::', 1)[-1]))
+            if tr in single and m is not None:
+                fn['resolved'] = {'kind': 'item', 'def': m['name'], 'uid': m['id'], 'local': True, 'crate': fn.get('crate'), 'impl_self': m.get('impl_self'), 'args': [], 'devirtualised': True}
+    return j
+
+
 def erase(j):
+    inline_literal_consts(j)
+    devirtualise_single_impl(j)
     nt, tup = discover(j)
-    if not nt:
+    if not nt and not tup:
         return j, {}
     names = sorted(list(nt) + list(tup), key=len, reverse=True)
     rx = re.compile(r"(?<![\w:])(%s)(?![\w]|::)" % '|'.join(re.escape(n) for n in names))
